@@ -125,7 +125,9 @@ def s_badlits(tier, rng, evs=EVS, mode='eval'):
             '1.2.3i', '1 2', '1.2 .3', '1_000', '１', '٣', '1' * 200, '0.' + '0' * 200 + '1', '9' * 400,
             # texts that std's own parsers accept (a whole-input `str::parse` fast path would let them through)
             'inf', 'infinity', 'Infinity', 'nan', 'NaN', '1E5', '1e-5', '1e+5', '5e', 'e5', '+5', '+.5', '5.e1', '0b11', '0o7', '1f64', '1i64',
-            '9223372036854775807', '09223372036854775808', '0009223372036854775808', '-0', '1,5', '1;5', "1'000"]
+            '9223372036854775807', '09223372036854775808', '0009223372036854775808', '-0', '1,5', '1;5', "1'000",
+            # two literal tokens in a row (a dot-led literal after a literal): not a product
+            '.5.25', '.1.2', '.5.5', '.5.50', '.25.5', '2.5.25', '1..25', '.5.25.125', '.5i.25', '2i.5']
     out = []
     for ev in evs:
         for l in lits:
@@ -611,7 +613,7 @@ def run_C02(tier, rng, stats):
     return res
 
 def run_C03(tier, rng, stats):
-    cs = (s_tokseq(tier, rng, qlen=4, tlen=5) + s_tokseq_full(tier, rng) + s_chars(tier, rng) + s_nearmiss_chars(tier, rng) + s_keywords(tier, rng) +
+    cs = (s_tokseq(tier, rng, qlen=4, tlen=5) + s_tokseq_full(tier, rng) + s_chars(tier, rng) + s_nearmiss_chars(tier, rng) + s_keywords(tier, rng) + s_badlits(tier, rng) +
           s_wf(tier, rng, nq=300, nt=3000) + s_mut(tier, rng, nq=400, nt=4000) +
           s_tokseq(tier, rng, mode='ast', qlen=3, tlen=4) + s_chars(tier, rng, mode='tokens') + s_longlits(tier, rng, mode='tokens') + s_longlits(tier, rng) + s_maxlen(tier, rng))
     stats['rule'] = ('all token sequences <= %d over a representative alphabet incl. a foreign character and a foreign keyword, all strings <= 3/4 chars, '
@@ -822,6 +824,16 @@ def match_known(pid, v, kf):
                 continue
             if f.get('ev') and tags.get('ev') not in f['ev']:
                 continue
+            if 'dist1_max' in f:          # arguments next to 1 (the distance does not survive conversion of the argument to a double)
+                d = tags.get('dist1')
+                if d is not None and 0 < d <= f['dist1_max'] and not tags.get('err'):
+                    return f['what']
+                continue
+            if 'ref_range' in f:          # results in a band of magnitudes, reported as Err
+                m = tags.get('ref_mag')
+                if m is not None and f['ref_range'][0] <= m <= f['ref_range'][1] and tags.get('err'):
+                    return f['what']
+                continue
             a = tags.get('arg')
             if a is None or not any(lo <= a <= hi for lo, hi in f.get('ranges', [[-1e400, 1e400]])):
                 continue
@@ -953,7 +965,7 @@ def focused_search(pid, rng, stats, rep):
             sel[k] = v
     if not sel:
         return []
-    cs = focus.focused_cases(sel, rng, limit=250000)
+    cs = focus.focused_cases(sel, rng, limit=300000)
     if evs is not None:
         cs = [c for c in cs if c[0] in evs]
     if pid in ('C13', 'C14', 'C20', 'C12'):
@@ -2181,6 +2193,51 @@ def run_C10(tier, rng, stats):
     stats['rule'] = ('every (evaluator, function name / alias / constant / postfix operator) of the vocabulary x arguments sampled over the domain (edges, large and negative arguments, random), '
                      'compared with the model (bit exact) and with an independent numeric reference (Python math, own Lambert W, Gamma): exact for abs sgn floor ceil trunc round n!, 1e-9 relative otherwise, '
                      'within 1 for the integer-valued real functions of eval_i64; eval_complex: the function stream of C08 (every function on generic, mixed-class and extreme-magnitude operands)')
+    # eval_decimal against 70-digit references (Python decimal): the double-precision references above cannot see the last
+    # 12 digits of a Decimal result, nor arguments within 1e-16 of 1
+    from decimal import Decimal as PD, getcontext as _getctx
+    _getctx().prec = 70          # Python's default of 28 digits would round 1 + 1e-28 and the 29-digit literals
+    dcs, dmeta = [], {}
+    one = PD(1)
+    a1 = []
+    for k in range(1, 29):
+        a1 += [one + PD(10) ** -k, one - PD(10) ** -k, one + 3 * PD(10) ** -k]
+    a1 += [PD(t) for t in ['0.0000000000000000000000000001', '0.00000000000000000001', '0.001', '0.5', '2', '10', '1000000', '79228162514264337593543950335',
+                           '10000000000000000000000000000', '2.718281828459045235360287471', '7.389', '0.36787944117144232159552377016', '60', '65', '66', '66.5', '66.53',
+                           '66.54', '-60', '-64', '-64.4', '95', '95.9', '95.98', '95.99', '-90', '-93', '27', '28', '3', '0.1', '0.25', '100', '12345.6789']]
+    a1 += [PD(rng.below(10 ** 9) + 1) / PD(10 ** rng.below(10)) for _ in range(20 if tier == 'quick' else 400)]
+    def dl(a):
+        t = format(a.copy_abs(), 'f')
+        return t if a >= 0 else '(0-' + t + ')'
+    for f in ['ln', 'lb', 'exp', 'exp2', 'sqrt']:
+        for a in a1:
+            c = case('decimal', 'eval', None, f + '(' + dl(a) + ')'); dcs.append(c); dmeta[c] = (f, (a,))
+    for f in ['pow', 'root', 'log']:
+        for a in [PD(t) for t in ['2', '10', '0.5', '1.5', '1.0000001', '79228162514264337593543950335', '3', '7', '0.1', '100']]:
+            for b in [PD(t) for t in ['2', '0.5', '3', '10', '95.5', '28', '-2', '0.1', '1.0000001', '64', '1.5']]:
+                c = case('decimal', 'eval', None, f + '(' + dl(a) + ',' + dl(b) + ')'); dcs.append(c); dmeta[c] = (f, (a, b))
+    dcases, douts, dmodel = run_streams(dcs, stats)
+    merge(res, std_judge('C10', dcases, douts, dmodel))
+    dn = dnd = 0
+    for c, x in zip(dcases, douts['debug']):
+        f, a = dmeta[c]
+        r = numref.dec_ref(f, a)
+        if r is None:
+            continue
+        R = Fraction(r)
+        if abs(R) >= 2 ** 96 or (R != 0 and abs(R) < Fraction(1, 10 ** 28)):
+            continue          # not representable as a Decimal: outside the property
+        got = value_of_out('decimal', vlib.strip_ticks(x))
+        dn += 1
+        ok = got is not None and abs(got - R) <= max(abs(R) * Fraction(1, 10 ** 9), Fraction(1, 10 ** 28))
+        if not ok:
+            v = {'kind': 'function-value', 'cases': [list(c)], 'observed': x, 'expected': '%.30g' % r,
+                 'why': '%s%s in eval_decimal: got %s, 70-digit reference %s' % (f, tuple(str(t) for t in a), vlib.strip_ticks(x), str(r)[:40]),
+                 'tags': {'fn': f, 'ev': 'decimal', 'arg': float(a[0]), 'dist1': float(abs(a[0] - one)), 'ref_mag': float(abs(r)), 'err': got is None}}
+            if not match_known('C10', v, KF):
+                dnd += 1
+            res['violations'].insert(0, v)
+    res['levels']['decimal-vs-70-digit-reference'] = (dn, dnd)
     # eval_complex offers the same names: its function stream (model bit-exact + cmath reference) is part of this check too
     sub = {}
     r8 = run_C08(tier, rng, sub)
